@@ -156,6 +156,91 @@ fn refuse_reason(msg: &str) -> &'static str {
     }
 }
 
+const NOCODE_OTI: &str = "0:1024:64:0:n";
+
+/// `admissionc <oti> <cenc 1 zlib|2 deflate|3 gzip> <r|z> <plain length> <transfer length>`: a REAL content-encoded
+/// object (r = incompressible pseudo-random bytes, z = zeros) with `oti` as per-object override is added to a fresh
+/// sender.  Its transfer length (length after content encoding, what `FileDesc::new` must compare with
+/// `max_transfer_length`) is read back from the `ObjectDesc` and must be the one on the line (the model's input).
+/// `only_len`: just return that length.
+fn admit_cenc(t: &[&str], only_len: bool) -> String {
+    use flute::core::lct::Cenc;
+    let bad = || "bad-op".to_string();
+    let oti = match parse_oti(t[0]) {
+        Some(o) => o,
+        None => return bad(),
+    };
+    let cenc = match t[1] {
+        "1" => Cenc::Zlib,
+        "2" => Cenc::Deflate,
+        "3" => Cenc::Gzip,
+        _ => return bad(),
+    };
+    let (plain, tl): (usize, u64) = match (t[3].parse(), t[4].parse()) {
+        (Ok(a), Ok(b)) if a <= 8_000_000 => (a, b),
+        _ => return bad(),
+    };
+    let content: Vec<u8> = match t[2] {
+        "z" => vec![0u8; plain],
+        "r" => {
+            let mut x: u64 = 0x9E37_79B9_7F4A_7C15 ^ plain as u64;
+            (0..plain)
+                .map(|_| {
+                    x ^= x >> 12;
+                    x ^= x << 25;
+                    x ^= x >> 27;
+                    (x.wrapping_mul(0x2545_F491_4F6C_DD1D) >> 56) as u8
+                })
+                .collect()
+        }
+        _ => return bad(),
+    };
+    let r = guarded(AssertUnwindSafe(|| {
+        let obj = match ObjectDesc::create_from_buffer(
+            content,
+            "application/octet-stream",
+            &url::Url::parse("file:///obj").unwrap(),
+            false,
+            TransferConfig { oti: Some(oti.clone()), cenc, ..Default::default() },
+        ) {
+            Ok(o) => o,
+            Err(_) => return "HARNESS-ERROR create".to_string(),
+        };
+        if only_len {
+            return obj.transfer_length.to_string();
+        }
+        if obj.transfer_length != tl {
+            return format!("HARNESS-ERROR transfer-length {}", obj.transfer_length);
+        }
+        let cfg = Config { toi_max_length: TOIMaxLength::ToiMax112, toi_initial_value: Some(1), ..Default::default() };
+        let ep = UDPEndpoint::new(None, "224.0.0.1".to_owned(), 1234);
+        let mut sender = Sender::new(ep, 1, &parse_oti(NOCODE_OTI).unwrap(), &cfg);
+        match sender.add_object(0, obj) {
+            Ok(toi) => {
+                let xml = match sender.fdt_xml_data(now()) {
+                    Ok(x) => x,
+                    Err(_) => return "HARNESS-ERROR fdt-xml".to_string(),
+                };
+                let files = match flute::verif_hooks::fdt_parse_summary(&xml) {
+                    Some(s) => s.files.unwrap_or_default(),
+                    None => return "HARNESS-ERROR fdt-unparsable".to_string(),
+                };
+                if files.len() != 1 || files[0].toi != toi.to_string() {
+                    return "HARNESS-ERROR fdt-file-entry".to_string();
+                }
+                let z = match (oti.fec_encoding_id as u8, files[0].oti_ss) {
+                    (6, Some((1, z, _, _))) => Some(z),
+                    (1, Some((2, z, _, _))) => Some(z),
+                    _ => None,
+                };
+                format!("ok z={}", z.map(|z| z.to_string()).unwrap_or("-".to_string()))
+            }
+            Err(_) => "ERR".to_string(),
+        }
+    }));
+    r.unwrap_or_else(|_| "PANIC".to_string())
+}
+
 fn admit(t: &[&str], _o: &mut Oracle) -> String {
     let bad = || "bad-op".to_string();
     let prio: u32 = match t[0].parse() {
@@ -663,6 +748,9 @@ impl Session {
                 "ok".to_string()
             }
             ("admission", 12) => admit(&t[2..], o),
+            ("admissionc", 7) => admit_cenc(&t[2..], false),
+            // not an operation of the protocol: the generator asks for the transfer length of the encoded content
+            ("cenclen", 5) => admit_cenc(&[NOCODE_OTI, t[2], t[3], t[4], "0"], true),
             ("wire", 4) => {
                 let (toi, tsi) = match (big(2), num(3)) {
                     (Some(a), Some(b)) => (a, b),
@@ -1780,6 +1868,38 @@ fn admit_cases(ctx: &mut Ctx, eng: &mut dyn Engine, rng: &mut Rng, nrandom: usiz
                     let oti = format!("{}:4:{}:2:{}", fec, b, sc);
                     issue(ctx, eng, admit_op(0, false, NOCODE, &oti, len, "none", CT, "-", "-", "-"));
                 }
+            }
+        }
+    }
+    // REAL content-encoded objects around the transfer-length limit: the limit applies to the ENCODED length.
+    // incompressible content a little below the limit (encoded form above it: must be refused), compressible content
+    // far above the limit (encoded form below it: must be accepted)
+    for (oti, limit) in [("5:1:1:1:n", 255u64), ("0:1:1:0:n", 65535), ("0:4:1:0:n", 262140)] {
+        for cenc in [1u32, 2, 3] {
+            let mut cases: Vec<(&str, u64)> = vec![];
+            for d in [300u64, 60, 30, 12, 4, 1, 0] {
+                cases.push(("r", limit.saturating_sub(d)));
+            }
+            cases.push(("r", limit + 1));
+            for m in [limit + 1, limit * 3, limit + 4096] {
+                cases.push(("z", m));
+            }
+            for (kind, plain) in cases {
+                let mut o = Oracle::default();
+                let tl = eng.exec(&format!("toi cenclen {} {} {}", cenc, kind, plain), &mut o);
+                if tl.parse::<u64>().is_err() {
+                    ctx.count("admission-cenc-harness-error");
+                    continue;
+                }
+                let obs = ctx.step(eng, &format!("toi admissionc {} {} {} {} {}", oti, cenc, kind, plain, tl));
+                ctx.evaluations += 1;
+                let tlv: u64 = tl.parse().unwrap();
+                ctx.count(&format!(
+                    "admission-cenc plain{}limit encoded{}limit -> {}",
+                    if plain > limit { ">" } else { "<=" },
+                    if tlv > limit { ">" } else { "<=" },
+                    obs.split(' ').next().unwrap_or("")
+                ));
             }
         }
     }
